@@ -23,9 +23,9 @@ MCPC_answer  == [DefaultPC EXCEPT !.answer = 1,
 MCPC_gensyn  == [DefaultPC EXCEPT !.gensyn = 1, !.reqs = <<[master |-> <<49, 254, 181, 9, 0>>, kind |-> 0, restarts |-> 0]>>]
 MCCfg == [own |-> PC.own, lock |-> PC.lock, gensyn |-> PC.gensyn, readonly |-> PC.readonly, answers |-> PC.answers]
 
-VARIABLES st, mon, lastIn
-vars == <<st, mon, lastIn>>
-View == <<st, mon>>
+VARIABLES st, mon, lastIn, ubv       \* ubv: the last step needed key arithmetic that is undefined behaviour in C++
+vars == <<st, mon, lastIn, ubv>>
+View == <<st, mon, ubv>>
 
 (***************************************************************************)
 (* environment alphabet (harness: delivChoices, echoChoices, canSubmit)    *)
@@ -106,12 +106,13 @@ StepMon(m, evs0) == LET evs == SelectSeq(evs0, LAMBDA e : e[1] \in MonKinds)
 (***************************************************************************)
 (* the transition system                                                   *)
 (***************************************************************************)
-Init == st = InitState /\ mon = MonInit /\ lastIn = TokDefault
+Init == st = InitState /\ mon = MonInit /\ lastIn = TokDefault /\ ubv = FALSE
 Next == \E tok \in EnvTokens(st) :
           LET r == StepF(st, tok) IN
           /\ st' = r.post
           /\ mon' = StepMon(mon, r.ev)
           /\ lastIn' = tok
+          /\ ubv' = r.ub
 
 Bad == IF OnR /\ mon.rm.bad # "" THEN mon.rm.bad
        ELSE IF OnS /\ mon.sm.bad # "" THEN mon.sm.bad
@@ -122,6 +123,6 @@ MonOk == Bad = "" \/ ~PrintT(<<"VF", "MON", Bad>>)
 
 (* S-level invariants (not properties of ebusd, sanity of the model): no undefined key arithmetic within the bounds,  *)
 (* the device waits for its arbitration byte only while an arbitration is requested                                   *)
-NoUb == \A tok \in EnvTokens(st) : ~StepF(st, tok).ub
+NoUb == ~ubv
 ArbSane == st.arbCheck # 0 => st.arbMaster # SYN
 =============================================================================
